@@ -16,6 +16,8 @@ func verifHarness_Fam(prop, fam, budget, maxList int) {
 		verifC01(x, b.entry)
 	case 2:
 		verifC02(x, b.entry)
+	case 3:
+		verifC03(x, b.entry)
 	case 4:
 		verifC04(x, b.entry)
 	case 5:
@@ -116,12 +118,11 @@ func verifC16(x0 string, b *verifB, fam int, modes int) {
 	verifFamilies[fam](b2)
 	x := b2.text
 	verifObserve("y", x)
-	if mode >= 2 {
-		// arbitrary trivia bytes: only inputs whose gap really is trivia are re-spellings
-		if !verifOnlyTrivia(b2.gapText) {
-			verifReach("C16/not-trivia")
-			return
-		}
+	// a re-spelling keeps the significant tokens: trivia that fuses with a neighbouring
+	// token ('-' followed by '--c', '/' followed by '/*c*/') is not one
+	if !verifSameTokens(x0, x) {
+		verifReach("C16/not-a-respelling")
+		return
 	}
 	n, _, err := verifParse(b.entry, x)
 	if err != nil {
@@ -220,4 +221,45 @@ func verifHarness_FamMut(prop, fam, budget, maxList, mut, wrap int) {
 	case 10:
 		verifC10(x, entry)
 	}
+}
+
+// verifSameTokens: both texts lex to the same significant tokens (kinds, values; keyword case folded by the lexer).
+func verifSameTokens(a, b string) bool {
+	ta, ok1 := verifSigTokens(a)
+	tb, ok2 := verifSigTokens(b)
+	if !ok1 || !ok2 || len(ta) != len(tb) {
+		return false
+	}
+	for i := range ta {
+		if ta[i].kind != tb[i].kind || ta[i].quoted != tb[i].quoted {
+			return false
+		}
+		if ta[i].kind == "<ident>" && !ta[i].quoted {
+			if !verifFoldEq(ta[i].val, tb[i].val) {
+				return false
+			}
+		} else if ta[i].val != tb[i].val {
+			return false
+		}
+	}
+	return true
+}
+
+func verifFoldEq(a, b string) bool {
+	if len(a) != len(b) {
+		return false
+	}
+	for i := 0; i < len(a); i++ {
+		c, d := a[i], b[i]
+		if 'a' <= c && c <= 'z' {
+			c -= 32
+		}
+		if 'a' <= d && d <= 'z' {
+			d -= 32
+		}
+		if c != d {
+			return false
+		}
+	}
+	return true
 }
